@@ -27,6 +27,8 @@ Menu       bal2 (``balance`` twice per row, vy between), agg (two aggregates, GR
            xa/xb (conn.execute()) and xc (conn.cursor().execute()): harness points between execute(), description,
            fetchone() and fetchall() in the worker.  tx/tx2/pr/pr2/nt: scans of #transactions / #prices / #notes, with a
            serial re-run after the concurrent phase.
+           ao/aa/am/ap: first statements of a fresh shared connection over an instrumented ledger ('sharedx').
+           dv/ds: inexact Decimal division, compared digit for digit with the main-thread serial reference.
            fa/fb, fs/fs2/fh, fd/fd2: vy() as a later ARGUMENT of root / substr / date_add (points inside an argument
            list, same overload, different values), pairs on all three configurations.
            tagg / tagg2 / tplain are passed AS TEXT (same text in both threads), as pairs only.
@@ -57,6 +59,7 @@ State      every execution starts from fresh Connections / tables and, for state
            threads of that execution.  ASTs without placeholders are shared by all executions and checked
            to be unmodified at the end.
 """
+import decimal
 import itertools
 import json
 import os
@@ -66,7 +69,7 @@ import threading
 
 import beanquery
 from beancount import loader
-from beancount.core import amount, inventory, position
+from beancount.core import amount, data, inventory, position
 from beanquery import parser, query_compile, query_env
 from beanquery.parser import ast as A
 
@@ -145,6 +148,18 @@ class SchedTable(HTable):
         for i, row in enumerate(self.rows):
             sched.point(('row', self.name, i))
             yield row
+
+
+class SchedEntries(list):
+    """The ledger handed to beanquery.connect() in the 'sharedx' configuration: iterating it is a scheduling point
+    before every Open directive (3 per harness ledger), whoever iterates -- a table scan or anything beanquery
+    derives lazily from the ledger on first use."""
+
+    def __iter__(self):
+        for i, entry in enumerate(list.__iter__(self)):
+            if isinstance(entry, data.Open):
+                sched.point(('entries', i))
+            yield entry
 
 
 class _RacyCol(query_compile.EvalColumn):
@@ -305,6 +320,25 @@ TABLE_MENU = {
 TABLE_PAIRS = [(cfg, p) for cfg in ('shared',) for p in (('tx', 'tx'), ('tx', 'tx2'), ('pr', 'pr'), ('pr', 'pr2'), ('nt', 'nt'),
                                                          ('tx', 'pr'))] + \
               [(cfg, p) for cfg in ('separate', 'different') for p in (('tx', 'tx2'), ('pr', 'pr2'))]
+# First statements of a FRESH shared connection that need the account information (open/close directives, account
+# types), in the 'sharedx' configuration: one Connection over an instrumented ledger (SchedEntries) so that there are
+# scheduling points inside anything computed from the ledger on first use.
+ACCT_MENU = {
+    'ao': ("SELECT account, open_date(account) AS o, close_date(account) AS c WHERE account ~ 'Assets:A'", None, ()),
+    'aa': ("SELECT account FROM #accounts", None, ()),
+    'am': ("SELECT account, open_meta(account, 'lineno') AS l WHERE account ~ 'Assets:B|Income'", None, ()),
+    'ap': ("SELECT account, possign(position, account) AS p WHERE account ~ 'Income'", None, ()),
+}
+ACCT_PAIRS = [('sharedx', p) for p in (('ao', 'ao'), ('ao', 'aa'), ('ao', 'am'), ('aa', 'aa'), ('ap', 'ao'), ('ap', 'aa'))]
+# Inexact Decimal arithmetic: the serial reference is computed in the main thread of the process, the explored
+# executions in worker threads; cells are compared digit for digit (Decimal.as_tuple()).
+DEC_MENU = {
+    'dv': ("SELECT account, number / 3 AS q, safediv(number, 7) AS f, vy(1) AS y WHERE account ~ 'Assets'", None, ()),
+    'ds': ("SELECT account, sum(number) / 7 AS q WHERE account ~ 'Assets' AND vy(1) = 1 GROUP BY account", None, ()),
+}
+DEC_PAIRS = [(cfg, p) for cfg in ('shared', 'different') for p in (('dv', 'dv'), ('dv', 'ds'))]
+MENU.update(ACCT_MENU)
+MENU.update(DEC_MENU)
 MENU.update(FROM_MENU)
 MENU.update(TEMPLATE_MENU)
 MENU.update(ARG_MENU)
@@ -314,6 +348,7 @@ TEXT_PAIRS = [('tagg', 'tagg'), ('tagg', 'tagg2'), ('tagg', 'tplain'), ('tplain'
 CANARY = ('canary', 'canary')
 MENU['canary'] = ("SELECT c FROM #canary", None, ())      # not part of IDS: explored separately, see run()
 CONFIGS = ['shared', 'separate', 'different']
+CONFIGS_ALL = CONFIGS + ['sharedx']       # sharedx: see ACCT_MENU
 # Thorough tier, 2 preemptions at line granularity for the pairs touching state shared between executions, with
 # the line points restricted to the modules that hold that state (a full-module product would be ~10^6 schedules):
 # the module-level `balance` cache (query_env / query_execute) and the shared AST rewritten by the compiler.
@@ -366,8 +401,10 @@ def params_for(sid, slot, e):
     return p
 
 
-def new_conn(e, ledger):
+def new_conn(e, ledger, instrumented=False):
     entries, errors, options = e['ledgers'][ledger]
+    if instrumented:
+        entries = SchedEntries(entries)
     conn = beanquery.connect('beancount:', entries=entries, errors=errors, options=options)
     conn.tables['ht'] = SchedTable([('x', int), ('s', str)], HT_ROWS[ledger], name='ht')
     conn.tables['canary'] = CanaryTable()
@@ -377,13 +414,20 @@ def new_conn(e, ledger):
 # ---------------------------------------------------------------------------------------------
 # observations
 
+def _num(d):
+    """Decimals digit for digit (sign, digits, exponent): 0.3333 with 28 digits is not 0.3333 with 34."""
+    return tuple(d.as_tuple()) if isinstance(d, decimal.Decimal) else d
+
+
 def canon(v):
     if isinstance(v, inventory.Inventory):
-        return ('Inventory', tuple(sorted((p.units.currency, p.units.number, repr(p.cost)) for p in v)))
+        return ('Inventory', tuple(sorted((p.units.currency, _num(p.units.number), repr(p.cost)) for p in v)))
     if isinstance(v, position.Position):
-        return ('Position', v.units.currency, v.units.number, repr(v.cost))
+        return ('Position', v.units.currency, _num(v.units.number), repr(v.cost))
     if isinstance(v, amount.Amount):
-        return ('Amount', v.currency, v.number)
+        return ('Amount', v.currency, _num(v.number))
+    if isinstance(v, decimal.Decimal):
+        return ('Decimal', _num(v))
     if isinstance(v, (list, tuple)):
         return (type(v).__name__, tuple(canon(i) for i in v))
     if isinstance(v, (set, frozenset)):
@@ -455,6 +499,8 @@ class Item:
         e, n = self.e, len(self.ids)
         if self.config == 'shared':
             conns = [new_conn(e, 0)] * n
+        elif self.config == 'sharedx':
+            conns = [new_conn(e, 0, instrumented=True)] * n
         elif self.config == 'separate':
             conns = [new_conn(e, 0) for _ in range(n)]
         else:
@@ -620,7 +666,7 @@ def run_item(item, acc, on_violation=None):
         acc.count('violating_schedules')
         first_switch = next((k for k, t in enumerate(out.trace) if t != out.trace[0]), len(out.trace))
         rank = (len(item.ids), item.mode != 'yield', out.preemptions, out.switches, first_switch, len(out.trace),
-                CONFIGS.index(item.config), tuple(out.picks))
+                CONFIGS_ALL.index(item.config), tuple(out.picks))
         for fp, what in bad:
             acc.count('violating|' + fp)
             lst = best.setdefault(fp, [])
@@ -718,7 +764,8 @@ def plan(ctx):
     for config, ids in TEMPLATE_PAIRS + FROM_PAIRS:
         add('yield', config, ids, None, sched.interleavings(*[pts[s] + 1 for s in ids]), 20)
     pts.update({sid: count_points('yield', sid, seed) for sid in list(ARG_MENU) + list(CURSOR_MENU) + list(TABLE_MENU)})
-    for config, ids in ARG_PAIRS + CURSOR_PAIRS + TABLE_PAIRS:
+    pts.update({sid: count_points('yield', sid, seed) for sid in list(ACCT_MENU) + list(DEC_MENU)})
+    for config, ids in ARG_PAIRS + CURSOR_PAIRS + TABLE_PAIRS + ACCT_PAIRS + DEC_PAIRS:
         add('yield', config, ids, None, sched.interleavings(*[pts[s] + 1 for s in ids]), 600)
     for config in CONFIGS:
         for ids in pairs:
@@ -891,7 +938,7 @@ def _run(ctx):
     outcome_sets = {k: v for k, v in total.sets.items() if isinstance(k, tuple) and k[0] == 'outcomes'}
     modes = sorted({k[1] for k in outcome_sets}, key=lambda m: (m != 'yield', m))
     for mode in modes:
-        for config in CONFIGS:
+        for config in CONFIGS_ALL:
             for n in (2, 3):
                 pre = f'{mode}|{config}|{n}'
                 if not total.n.get('sched|' + pre):
@@ -927,7 +974,7 @@ def _run(ctx):
                   '3 threads: all schedules with <= 2 preemptions for %d triples (shared and different configurations; the quick '
                   'subset in the separate configuration); text statements: all interleavings of %s incl. parse points; FROM-qualified and BALANCES/JOURNAL pairs: %s'
                   % (len(total.sets['items|yield|shared|2']), len(total.sets['items|yield|shared|3']), TEXT_PAIRS + PARSE_PAIRS,
-                     [f'{c}:{"+".join(i)}' for c, i in FROM_PAIRS + TEMPLATE_PAIRS + ARG_PAIRS + CURSOR_PAIRS + TABLE_PAIRS]))
+                     [f'{c}:{"+".join(i)}' for c, i in FROM_PAIRS + TEMPLATE_PAIRS + ARG_PAIRS + CURSOR_PAIRS + TABLE_PAIRS + ACCT_PAIRS + DEC_PAIRS]))
                  + ('; line granularity (sys.settrace, a point before every line of beanquery/*.py): all schedules with <= 1 '
                     'preemption for all pairs in the shared and different configurations; <= 2 preemptions with line points restricted to the modules '
                     'holding the shared state for %s (at most %d executions per sub-shard)'
@@ -954,7 +1001,7 @@ def _run(ctx):
         'phase_wall_s': phases,
         'non_vacuity_canary': canary_result,
         'explorer_selftest': {k: list(v) if isinstance(v, tuple) else v for k, v in facts.items()},
-        'configurations': CONFIGS,
+        'configurations': CONFIGS_ALL,
         'samples': samples,
     }
     return Result(cov, violations, assumptions=[
